@@ -24,6 +24,10 @@ CHECKS = {
             "closure BFS (state space closes: every stream length, every weak order pattern incl. both zeros) of the real selection methods x sort/max/min/arg reference for lengths 1..5 (7 thorough); macro-step exploration of <=2/3 constant/ramp segments for every length 1..=254",
             "The algorithms only compare and copy, so a closed exploration over an alphabet of n+1 ordered values plus both zeros covers every behaviour class of a length-n window for streams of any length; outputs are compared exactly (up to the sign of zero), SMM's exported window must hold the last n inputs.",
             "Trusted: the order-pattern lifting argument, the sort-based reference. Lengths above 7 are covered by segment streams only."),
+    "C07": ("DESIGN.md §6 C07",
+            "(1) closure BFS of the counter-carrying methods (reversal detectors, index/extremum/median selections, Past) over a 3-symbol alphabet - the product state contains the u8 counters, so the search runs through PeriodType::MAX and closes; (2) macro-step exploration: every script of <= 2 macro-steps 'feed L values of regime r' (L in 254,255,256,65 536 quick; up to 10^7 thorough; regimes volatile/flat/ramp/scale jump x2^20/negative) carries the REAL instance into a long history with the from-scratch definition compared at EVERY inner step (radius with the true t), then all micro-sequences of depth 1-2 from every state so reached; indicators: long-past instance vs a fresh instance primed with the recent window, in lock-step",
+            "A closed product space is a proof for every stream length over the alphabet; macro-steps make histories of 10^5-10^7 steps states of the explored graph instead of something a unit test would have to sample.",
+            "Trusted: the definitional references and the linear allowance of DESIGN §4.2. Indicator-level comparison is deliberately coarse (1e-4, values skipped after a scale jump); 10^7-step histories only in the thorough tier and only along the scripted regimes."),
     "C08": ("DESIGN.md §6 C08",
             "exhaustive exploration over every method (small + boundary parameters, 6 construction values of any magnitude/sign/zero/non-dyadic) and every indicator (default, small-period, every MA kind in every slot): (1) constant feed of the construction value for max(3n+5,40) steps, (2) product exploration of an instance fed k in {1,2,3,n-1,n,n+1} extra leading copies and a fresh one over every continuation of depth 3-6",
             "Constancy is judged bitwise for exact kinds and signals and against a radius WITHOUT a factor t (free of drift) for arithmetic outputs; prefix invariance is a relation between two runs checked on every explored continuation.",
